@@ -178,6 +178,10 @@ def call_shapes(pos, kos, npo):
                 shapes.append(", ".join(base_pos[:-1] + [f"*[{base_pos[-1]}]"] + kws))
             if ks:
                 shapes.append(", ".join(base_pos + kws[:-1] + ["**{" + repr(ks[-1]) + ": 'u'}"]))
+                # a mapping first and the same name again as an explicit keyword after it
+                # (not for the reserved trigger keywords: the documented removal of those leaves nothing to collide)
+                if ks[0] not in RESERVED:
+                    shapes.append(", ".join(base_pos + ["**{" + repr(ks[0]) + ": 'u'}"] + [f"{ks[0]}='dup'"] + kws[1:]))
     return shapes
 
 
